@@ -1054,6 +1054,10 @@ def calibrate_key(key, context, meter, base, dropped, base_cpu=None):
             base_cpu[key] = min(out["cpu"], again["cpu"])
     else:
         dropped[key] = out["outcome"]
+        if "sig" in out and out["outcome"] in ("leak", "wrong_type", "budget", "accepted_malformed"):
+            # the fault-free document itself ends in something the property forbids
+            return {"case": case, "out": {k: v for k, v in out.items() if k != "wf"}, "sig": out["sig"]}
+    return None
 
 
 _codes = {}
@@ -1088,7 +1092,9 @@ def run_batch_cases(cases, emit):
     for i, case in enumerate(cases):
         key = case_key(case)
         if key not in base and key not in dropped:
-            calibrate_key(key, context, meter, base, dropped, base_cpu_table)
+            v0 = calibrate_key(key, context, meter, base, dropped, base_cpu_table)
+            if v0 is not None:
+                summary["viol"].append(v0)
         if key not in base:
             summary["skipped"] += 1
             continue
